@@ -4,8 +4,9 @@ _MODELLED = [
     "pkg/dhcp/pool.go: generateAvailableIPs, Allocate, Reserve, Release(ip), MarkUnavailable, Stats",
     "pkg/dhcpv6/server.go: NewAddressPool/NewPrefixPool (first 1000 units, bit placement), Allocate, Release",
     "pkg/pppoe/server.go: NewIPPool universe, IPPool.Allocate/Release",
-    "pkg/pool/peer.go: generateAvailableIPs, allocateLocal, releaseLocal, Get, Stats on a single-node PeerPool",
+    "pkg/pool/peer.go: generateAvailableIPs, allocateLocal, releaseLocal, Get, Stats on a single-node PeerPool, reached through the Go API and through the peer HTTP API handlers (handleAllocate / handleRelease / handleGet / handleStatus) with plain and circuit-style subscriber IDs",
     "pkg/allocator/distributed.go (via Model/DistAlloc.v of C12): Allocate (rollback on Put failure), Release (Delete first), Renew, Get, Stats, AdvanceEpoch, Start/loadAllocations",
+    "pkg/dhcpv6/server.go Server (stream srv6, Model/Srv6Pool.v): handleSolicit (rapid commit / buildAdvertise), handleRequest (server-id), handleRenew / handleRebind (NoBinding), handleRelease, handleDecline, buildReply lease bookkeeping, over both legacy pools or either one",
     "pkg/nexus/client.go: AllocateIPForSubscriber, allocateFromPool (FNV-1a mod hosts, byte adds, unmasked base), ReleaseSubscriberIP, LookupSubscriberIP",
 ]
 _ASSUME = [
@@ -15,11 +16,12 @@ _ASSUME = [
     "nexus client is driven over a harness Store that delivers watch events synchronously and in order (nexus.MemoryStore starts a goroutine per event; a late echo can overwrite a newer cached record - observed once, outside this sequential tie)",
     "DistributedAllocator: stream 'dist' (C05 only) drives the real object in both modes on a harness Store with Put/Delete failure at every call index followed by reload; its Model (Model/DistAlloc.v) and the cited lemmas are the C12 builder's; watch notifications are not delivered in this stream (C12 covers them); lease mode keeps to <= 1 AdvanceEpoch between reloads",
     "same-subscriber races: stream 'race' (barrier-released rounds, 2-16 callers per fresh subscriber, background writer, GOMAXPROCS >= 8) samples schedules of every mutex-protected pool type; every return value and the final table / statistics / obtainable units are judged by the Spec in Coq",
+    "stream 'srv6': the real dhcpv6.Server is driven one datagram at a time (C02's verif hooks); unique / in_range / stable are enforced on the values the replies carry and on the pools' allocated maps + free lists after every message",
     "IPv6 geometry of the epoch allocator is not modelled: the code itself is IPv4 only (baseIP = To4())",
 ]
 SPEC = {
     "props": "Props/C01.v",
-    "check_vo": ["Model/PoolCheck.vo", "Model/DistPoolCheck.vo"],
+    "check_vo": ["Model/PoolCheck.vo", "Model/DistPoolCheck.vo", "Model/Srv6PoolCheck.vo"],
     "driver": "c01",
     "driver_args": ["-prop", "C01"],
     "driver_timeout": 2400,
